@@ -114,6 +114,18 @@ pub fn run_ska_env(ctx: &Ctx, cwd: &Path, args: &[&str], env: &[(&str, &str)]) -
         rewritten.push(args[i].to_string());
         i += 1;
     }
+    // options may stand anywhere among the arguments: in a quarter of the calls that have one, `-o <file>` is moved
+    // to another place (right behind the subcommand, between two inputs, ...; never between an option and its value)
+    if (ctx.counter.get() as usize + salt) % 4 == 1 {
+        if let Some(i) = rewritten.iter().position(|a| a == "-o") {
+            if i + 1 < rewritten.len() {
+                let pair: Vec<String> = rewritten.drain(i..i + 2).collect();
+                let slots: Vec<usize> = (1..=rewritten.len()).filter(|j| *j == 1 || !rewritten[*j - 1].starts_with('-')).collect();
+                let at = slots[(ctx.counter.get() as usize / 4 + salt) % slots.len()];
+                rewritten.splice(at..at, pair);
+            }
+        }
+    }
     cmd.args(&rewritten)
         .current_dir(cwd)
         .stdin(Stdio::null())
